@@ -49,7 +49,8 @@ structure Entry where
   depths : List (Str × Int) := []     -- property_depth_map[entry]
 deriving DecidableEq, Repr
 
-structure MSt where
+/-- everything but the element stack -/
+structure Core where
   feed : D := []
   entries : List Entry := []          -- newest first: head = entries[-1]
   version : Str := []
@@ -57,9 +58,13 @@ structure MSt where
   nsMap : List (Option Str × Str) := []
   infeed : Bool := false
   inentry : Bool := false
-  stack : List Elem := []             -- head = elementstack[-1]
   depth : Int := 0
   base : Base.St := ⟨"", none, [], []⟩
+deriving Repr
+
+structure MSt where
+  c : Core := {}
+  stack : List Elem := []             -- head = elementstack[-1]
 deriving Repr
 
 inductive MEv
@@ -111,7 +116,7 @@ def canonKey (k : Str) : Str := (Dict.canon keymap (String.ofList k)).toList
 def fset (d : D) (k : Str) (v : V) : D := dset d (canonKey k) v
 
 /-! ### track_namespace (mixin.py:449-466) -/
-def trackNamespace (s : MSt) (pfx : Option Str) (uri0 : Str) : MSt :=
+def trackNamespace (s : Core) (pfx : Option Str) (uri0 : Str) : Core :=
   let lower0 := lowerS uri0
   let version :=
     if s.version.isEmpty then
@@ -131,7 +136,7 @@ def splitTag (tag : Str) : Str × Str :=
   if tag.contains ':' then (tag.takeWhile (· != ':'), (tag.dropWhile (· != ':')).drop 1) else ([], tag)
 
 /-- canonical handler suffix `prefix_ + suffix` (mixin.py:281-288) -/
-def handlerName (s : MSt) (tag : Str) : Str :=
+def handlerName (s : Core) (tag : Str) : Str :=
   let (p, suf) := splitTag tag
   let p' := (sget s.nsMap (some p)).getD p
   (if p'.isEmpty then [] else p' ++ ['_']) ++ suf
@@ -150,12 +155,12 @@ def updHead (f : Entry → Entry) : List Entry → List Entry
 
 /-- context dict selector of `_get_context` restricted to the modelled flags: `entries[-1]` inside an
 entry (`inentry` implies `entries ≠ []`, see Props/C01), else the feed -/
-def setContext (s : MSt) (k : Str) (v : V) : MSt :=
+def setContext (s : Core) (k : Str) (v : V) : Core :=
   if s.inentry then { s with entries := updHead (fun e => { e with d := fset e.d k v }) s.entries }
   else { s with feed := fset s.feed k v }
 
 /-- `_map_to_standard_prefix(name)` then `attrs_d.get` -/
-def getAttribute (s : MSt) (attrsD : List (Str × Str)) (name : Str) : Option Str :=
+def getAttribute (s : Core) (attrsD : List (Str × Str)) (name : Str) : Option Str :=
   let (p, suf) := splitTag name
   sget attrsD (if name.contains ':' then ((sget s.nsMap (some p)).getD p) ++ [':'] ++ suf else name)
 
@@ -172,15 +177,15 @@ def pop (o : Ops) (s : MSt) (element : Str) : MSt :=
   | [] => s
   | top :: rest =>
     if top.name != element then s else
-    let s1 := { s with stack := rest }
+    let c := s.c
     let output0 := stripS top.pieces.flatten
-    if !top.expecting then s1 else
-    let output1 := if canBeRelativeUri.contains element && !output0.isEmpty && element != S "id" then o.join s.base.baseuri.toList output0 else output0
+    if !top.expecting then ⟨c, rest⟩ else
+    let output1 := if canBeRelativeUri.contains element && !output0.isEmpty && element != S "id" then o.join c.base.baseuri.toList output0 else output0
     let output := o.fix output1
-    if element == S "category" || element == S "tags" || element == S "itunes_keywords" then s1 else
-    if s1.inentry then { s1 with entries := updHead (writeEntry element output s1.depth) s1.entries }
-    else if s1.infeed then { s1 with feed := fset s1.feed element (.s output) }
-    else s1
+    if element == S "category" || element == S "tags" || element == S "itunes_keywords" then ⟨c, rest⟩ else
+    if c.inentry then ⟨{ c with entries := updHead (writeEntry element output c.depth) c.entries }, rest⟩
+    else if c.infeed then ⟨{ c with feed := fset c.feed element (.s output) }, rest⟩
+    else ⟨c, rest⟩
 
 def push (s : MSt) (name : Str) (expecting : Bool) : MSt := { s with stack := ⟨name, expecting, []⟩ :: s.stack }
 
@@ -190,13 +195,13 @@ def toBaseStr (x : Str) : String := String.ofList x
 
 /-- steps of `unknown_starttag` before the dispatch: depth, attribute normalisation, xml:base /
 xml:lang, feed language, namespace declarations delivered as attributes; returns the state and `attrs_d` -/
-def startPre (o : Ops) (s0 : MSt) (tag : Str) (attrs0 : List (Str × Str)) : MSt × List (Str × Str) :=
+def startPre (o : Ops) (s0 : Core) (tag : Str) (attrs0 : List (Str × Str)) : Core × List (Str × Str) :=
   let attrs := attrs0.map (normAttr o.loose)
   let attrsD := dictOf attrs
   let xb := (sget attrsD (S "xml:base")).orElse fun _ => sget attrsD (S "base")
   let xl := (sget attrsD (S "xml:lang")).orElse fun _ => sget attrsD (S "lang")
   let b' := Base.step o.base s0.base (.start (xb.map toBaseStr) (xl.map toBaseStr))
-  let s1 : MSt := { s0 with depth := s0.depth + 1, base := b' }
+  let s1 : Core := { s0 with depth := s0.depth + 1, base := b' }
   let s2 := match b'.lang with
     | some l => if !l.isEmpty && (tag == S "feed" || tag == S "rss" || tag == S "rdf:RDF")
         then { s1 with feed := fset s1.feed (S "language") (.s (replaceAll ['_'] ['-'] l.toList)) } else s1
@@ -209,51 +214,60 @@ def startPre (o : Ops) (s0 : MSt) (tag : Str) (attrs0 : List (Str × Str)) : MSt
 def dropDecls (attrsD : List (Str × Str)) : List (Str × Str) :=
   attrsD.filter fun kv => !(kv.1 == S "xmlns" || (S "xmlns:").isPrefixOf kv.1)
 
-/-- the dispatch of `unknown_starttag`: structural handler, other handler (outside the model), or the
-fallback for elements without a handler (mixin.py:305-320) -/
-def dispatchStart (s3 : MSt) (h : Str) (attrsD : List (Str × Str)) : Outcome :=
+/-- the dispatch of `unknown_starttag` on the stack-free part of the state: structural handler, other
+handler (outside the model), or the fallback for elements without a handler (mixin.py:305-320).
+Returns the new core and the element to push, if any. -/
+def dispatchCore (s3 : Core) (h : Str) (attrsD : List (Str × Str)) : Except Str (Core × Option Elem) :=
   if h == S "rss" then
     .ok (if s3.version.isEmpty || !(S "rss").isPrefixOf s3.version then
       let av := (sget attrsD (S "version")).getD []
       let v := if av == S "0.91" then S "rss091u" else if av == S "0.92" then S "rss092" else if av == S "0.93" then S "rss093"
         else if av == S "0.94" then S "rss094" else if (S "2.").isPrefixOf av then S "rss20" else S "rss"
-      { s3 with version := v } else s3)
+      ({ s3 with version := v }, none) else (s3, none))
   else if h == S "channel" || h == S "feed" || h == S "item" || h == S "entry" then
-    if (sget attrsD (S "lastmod")).isSome || (sget attrsD (S "href")).isSome then .unmodelled (S "_cdf_common attributes") else
-    if h == S "channel" then .ok { s3 with infeed := true }
+    if (sget attrsD (S "lastmod")).isSome || (sget attrsD (S "href")).isSome then .error (S "_cdf_common attributes") else
+    if h == S "channel" then .ok ({ s3 with infeed := true }, none)
     else if h == S "feed" then
       .ok (if s3.version.isEmpty then
         let av := sget attrsD (S "version")
         let v := if av == some (S "0.1") then S "atom01" else if av == some (S "0.2") then S "atom02" else if av == some (S "0.3") then S "atom03" else S "atom"
-        { s3 with infeed := true, version := v } else { s3 with infeed := true })
+        ({ s3 with infeed := true, version := v }, none) else ({ s3 with infeed := true }, none))
     else
       -- _start_item
-      let s4 := push { s3 with entries := {} :: s3.entries } (S "item") false
-      let s5 := { s4 with inentry := true }
-      match getAttribute s5 attrsD (S "rdf:about") with
-      | some id => if id.isEmpty then .ok s5 else .ok (setContext s5 (S "id") (.s id))
-      | none => .ok s5
-  else if hasStart h then .unmodelled (S "handler _start_" ++ h)
+      let s5 : Core := { s3 with entries := {} :: s3.entries, inentry := true }
+      let s6 := match getAttribute s5 attrsD (S "rdf:about") with
+        | some id => if id.isEmpty then s5 else setContext s5 (S "id") (.s id)
+        | none => s5
+      .ok (s6, some ⟨S "item", false, []⟩)
+  else if hasStart h then .error (S "handler _start_" ++ h)
   else
     -- fallback: no handler (namespace declarations do not count as attributes)
     let a := dropDecls attrsD
-    if a.isEmpty then .ok (push s3 h true)
-    else .ok (setContext s3 h (.d a))
+    if a.isEmpty then .ok (s3, some ⟨h, true, []⟩)
+    else .ok (setContext s3 h (.d a), none)
+
+def applyDispatch (stack : List Elem) : Except Str (Core × Option Elem) → Outcome
+  | .ok (c, some e) => .ok ⟨c, e :: stack⟩
+  | .ok (c, none) => .ok ⟨c, stack⟩
+  | .error w => .unmodelled w
 
 def startTag (o : Ops) (s0 : MSt) (tag : Str) (attrs0 : List (Str × Str)) : Outcome :=
-  let r := startPre o s0 tag attrs0
-  dispatchStart r.1 (handlerName r.1 tag) r.2
+  let r := startPre o s0.c tag attrs0
+  applyDispatch s0.stack (dispatchCore r.1 (handlerName r.1 tag) r.2)
+
+/-- the core-only effects of `unknown_endtag` after the handler / pop: leave the base / language scope, depth -/
+def endFinish (o : Ops) (c : Core) : Core := { c with base := Base.step o.base c.base .stop, depth := c.depth - 1 }
 
 def endTag (o : Ops) (s0 : MSt) (tag : Str) : Outcome :=
-  let h := handlerName s0 tag
-  let r : Outcome :=
-    if h == S "channel" || h == S "feed" then .ok { s0 with infeed := false }
-    else if h == S "item" || h == S "entry" then .ok { (pop o s0 (S "item")) with inentry := false }
-    else if hasEnd h then .unmodelled (S "handler _end_" ++ h)
-    else .ok (pop o s0 h)
-  match r with
-  | .unmodelled w => .unmodelled w
-  | .ok s1 => .ok { s1 with base := Base.step o.base s1.base .stop, depth := s1.depth - 1 }
+  let h := handlerName s0.c tag
+  if h == S "channel" || h == S "feed" then .ok ⟨endFinish o { s0.c with infeed := false }, s0.stack⟩
+  else if h == S "item" || h == S "entry" then
+    let s1 := pop o s0 (S "item")
+    .ok ⟨endFinish o { s1.c with inentry := false }, s1.stack⟩
+  else if hasEnd h then .unmodelled (S "handler _end_" ++ h)
+  else
+    let s1 := pop o s0 h
+    .ok ⟨endFinish o s1.c, s1.stack⟩
 
 def handleData (s : MSt) (text : Str) : MSt :=
   match s.stack with
@@ -264,7 +278,7 @@ def mstep (o : Ops) (s : MSt) : MEv → Outcome
   | .start tag attrs => startTag o s tag attrs
   | .stop tag => endTag o s tag
   | .data t => .ok (handleData s t)
-  | .ns p u => .ok (trackNamespace s p u)
+  | .ns p u => .ok ⟨trackNamespace s.c p u, s.stack⟩
 
 def mrun (o : Ops) : MSt → List MEv → Outcome
   | s, [] => .ok s
